@@ -128,7 +128,17 @@ def cases(seed, tier):
         cid = "C02-%d-%d" % (seed, i)
         if i % 5 == 4 and not (nrs > 1 and i % 3 == 0):
             dropin_noise(rng, rulesets, ticks)
-        scns = [mk_scn(cid, {"rulesets": rulesets}, scripts, ticks)]
+        extra = None
+        if i % 7 == 6 and not (nrs > 1 and i % 3 == 0):
+            # "every enabled ruleset" includes the per-cgroup instances of a ruleset-level cgroup, which come and go
+            cg = {"/": W.root_cgroup(), "wl/x1": W.cgroup(), "wl/y": W.cgroup()}
+            rulesets[0]["cgroup"] = "wl/x*"
+            for t in range(1, nticks):
+                if rng.random() < 0.3:
+                    u = rng.choice(["wl/x1", "wl/x2", "wl/x3"])
+                    ticks[t].setdefault("ops", []).append(rng.choice([{"op": "rm", "cg": u}, dict(op="mk", cg=u, **W.cgroup())]))
+            extra = {"cgroups": cg}
+        scns = [mk_scn(cid, {"rulesets": rulesets}, scripts, ticks, extra)]
         if nrs > 1 and i % 3 == 0:
             for k, rs in enumerate(rulesets):
                 scns.append(mk_scn("%s-alone%d" % (cid, k), {"rulesets": [rs]}, scripts, ticks))
@@ -159,7 +169,7 @@ def judge(case, results, own=OWN):
     st["dropin_adds_rolled_back"] = sum(1 for e in res.events if e.get("ev") == "dropin_result" and e["op"] == "add" and not e["ok"])
     for prop, rule, disc, detail in viol:
         # "each detector of every enabled ruleset executes exactly once" is C02's own clause whatever state the ruleset is in
-        if prop in own or prop == "ANY" or (rule == "detector-once" and prop == "C06" and "C02" in own):
+        if prop in own or prop == "ANY" or ("C02" in own and rule in ("detector-once", "prerun-once", "prerun-per-instance")):
             v.bad(rule, disc, detail)
         else:
             v.count("other_property_divergence:" + prop + ":" + rule)
